@@ -92,7 +92,9 @@ type Op struct {
 	Bad   string `json:"bad,omitempty"` // "", "digest", "size"
 	H     int    `json:"h,omitempty"`   // upload handle index
 	Piece string `json:"piece,omitempty"`
-	Off   string `json:"off,omitempty"` // resume offset mode: "size", "-1", "wrong"
+	Off   string `json:"off,omitempty"` // resume offset mode: "size", "-1", "wrong", "zero", "num" (explicit N)
+	N     int64  `json:"n,omitempty"`
+	W     int    `json:"w,omitempty"` // writer slot: which BlobWriter value of the session is used (0 = the only one, sequential histories)
 }
 
 func (o Op) String() string {
@@ -118,6 +120,9 @@ func (o Op) String() string {
 	case "Write":
 		return fmt.Sprintf("Write(h%d,%q)", o.H, o.Piece)
 	case "Resume":
+		if o.Off == "num" {
+			return fmt.Sprintf("Resume(h%d,off=%d)", o.H, o.N)
+		}
 		return fmt.Sprintf("Resume(h%d,off=%s)", o.H, o.Off)
 	case "Commit":
 		if o.Bad != "" {
